@@ -44,6 +44,11 @@ CHECKS.update({
     "C11": dict(text="look_to/look_at (rigid, eye->origin, dir->-Z/+Z, up into +Y half-plane) and all perspective/orthographic constructors (clip w, near/far depths incl. infinite and reverse forms, fov/aspect/box planes -> +-1), project_point3 = xyz/w, proved on the compiled kernels in mode R", design="4/C11", tech=E2T, engine="E2", note=E2N),
     "C12": dict(text="lerp (affine blend, exact endpoints E1), midpoint, move_towards, clamp_length* (2- and 3-component types), any_orthogonal/orthonormal vector/pair, from_rotation_arc_colinear/_2d structure in mode R; SSE2 Quat::slerp restated against the sin-weighted blend with the hemisphere flip (E1, uninterpreted sine kernel). NOT decided: arc-length law, quaternion lerp/slerp/from_rotation_arc as mode-R identities (nlsat unknown), rotate_towards, vector slerp", design="4/C12", tech=E2T + "; " + E1, engine="E1+E2", note=E2N),
 })
+CHECKS.update({
+    "C02": dict(text="dot, cross, perp_dot, length(_squared/_recip), distance(_squared), element_sum/product, project/reject (2- and 3-component), reflect, refract, normalize of all 7 float vector types proved equal to the textbook formulas on the compiled kernels (mode R; Vec3A with arbitrary hidden lane); normalize-family discrete outcomes (None / fallback / zero / (X,0) exactly when !(1/len finite and > 0)) on all inputs (E1). All 'within a few eps' clauses and arccos accuracy are NOT decided", design="4/C02", tech=E2T + "; " + E1, engine="E1+E2", note=E2N),
+    "C19": dict(text="serde through an exact in-memory token Serializer/Deserializer for every vector, mask, quaternion, matrix and affine type (N scalars in lane/column-major order, round trip bit-identical, every other length 0..N+2 rejected), identical reference for the SSE2 and scalar-math builds; bytemuck Pod types: no padding, element order, cast identity, zeroed; mint identity and row/column semantics. rkyv and JSON text NOT decided", design="4/C19", tech=E1),
+    "C20": dict(text="differential harnesses between /repo and a copy of the same tree built with glam-assert: for every asserting method the two builds return bit-identical results whenever the asserting build does not panic; must-panic / must-not-panic pairs for the documented preconditions on the asserting build. Numeric closure of chains (rounding stays inside the 2e-4 tolerances) NOT decided", design="4/C20", tech=E1 + "; two-tree differential"),
+})
 NA = {}
 
 
